@@ -5,7 +5,7 @@ import Mutiny.Proofs.MultiFan
 
 Model M6 + M7 (`Mutiny/Model/Multi.lean`), both fan-out flavours (`arc`, `ogreArc`).  Scope: any quiescent well-formed
 state `s₀` (`WF`, e.g. the result of any legal sequential set-up, `c10_bookkeeping`), followed by ANY execution `as` made
-of `.send`, `.poll`, `.release`, `.step`, `.ack` actions (`FanAct`: no `create`, no `drop`) — any number of producer and
+of `.send`, `.poll`, `.release`, `.cancel`, `.step`, `.ack` actions (`FanAct`: no `create`, no `drop`) — any number of producer and
 consumer threads, any interleaving of their micro-steps, any length.  The listener set is `L = s₀.live`.
 The events passed to `.send` are pairwise distinct (`(sendEvs as).Nodup`); they are identities of payloads.
 `P`, `S`, `D` below are what the execution appended to the ghost logs `pubs`, `sent`, `delivered` of `s₀`.
@@ -16,18 +16,20 @@ What happens when `create` / `drop` run concurrently with a send is C17 (`Mutiny
 namespace Mutiny.Multi
 
 /-- **C03 (frame).**  Without `create` / `drop` nothing of the bookkeeping ever changes — `used`, `count`, `vacant`,
-    `live`, the lock, `keep`, the incarnations — and no thread is ever inside `create`, `drop` or `sync`.
+    `live`, the lock, the incarnations — and no thread is ever inside `create`, `drop` or `sync`; `keep j` is cleared by
+    `.cancel j` (`cancel_stream`) and otherwise never changes: cancelling a listener does not take it out of the fan-out.
     (No hypothesis on the events.) -/
 theorem c03_frame (s₀ : St) (hw : WF s₀) (as : List Act) (hfa : ∀ a ∈ as, FanAct a) :
     let s := run s₀ as
     s.MAX = s₀.MAX ∧ s.used = s₀.used ∧ s.count = s₀.count ∧ s.vacant = s₀.vacant ∧ s.live = s₀.live ∧
-      s.slock = s₀.slock ∧ s.keep = s₀.keep ∧ s.inc = s₀.inc ∧ s.flavor = s₀.flavor ∧ s.N = s₀.N ∧
-      s.drains = s₀.drains ∧ (∀ t, FanLoc (s.thr t)) := by
+      s.slock = s₀.slock ∧ (∀ j, s.keep j = if j ∈ cancelIds as then false else s₀.keep j) ∧ s.inc = s₀.inc ∧
+      s.flavor = s₀.flavor ∧ s.N = s₀.N ∧ s.drains = s₀.drains ∧ (∀ t, FanLoc (s.thr t)) := by
   intro s
-  obtain ⟨h1, h2⟩ := frame_run as hfa (s := s₀) (fun u => by rw [hw.idle u]; trivial)
+  have hl0 : ∀ u, FanLoc (s₀.thr u) := fun u => by rw [hw.idle u]; trivial
+  obtain ⟨h1, h2⟩ := frame_run as hfa (s := s₀) hl0
   simp only [frameOf, Prod.mk.injEq] at h1
-  obtain ⟨a, b, c, d, e, f, g, h, i, j, k⟩ := h1
-  exact ⟨a, f, g, e, j, i, h, k, c, b, d, h2⟩
+  obtain ⟨a, b, c, d, e, f, g, i, j, k⟩ := h1
+  exact ⟨a, f, g, e, j, i, keep_run as hfa hl0, k, c, b, d, h2⟩
 
 /-- **C03 (exact fan-out).**  For every event whose send completed (`ev ∈ S`) and every listener `l ∈ L`, `(ev, l)` was
     published exactly once, and never for `l ∉ L`; for a send still in progress (or rejected: pool full) every `(ev, l)`
@@ -231,9 +233,11 @@ theorem c03_refs (s₀ : St) (hw : WF s₀) (hfl : s₀.flavor = .ogreArc) (as :
 /-! ## non-vacuity -/
 
 /-- two producers (threads 0, 1) fan events 7 and 8 out to listeners `{0,1}` with their micro-steps interleaved, a
-    consumer (thread 2) polls and releases, then thread 0 starts sending 9 and is stopped half-way -/
+    consumer (thread 2) polls and releases, listener 1 is cancelled in the middle of both sends (and still gets and
+    consumes everything), then thread 0 starts sending 9 and is stopped half-way -/
 def fanWitness : List Act :=
-  [.send 0 7, .send 1 8, .step 0, .step 1, .step 0, .step 1, .poll 2 0, .step 2, .ack 2, .step 0, .step 1, .ack 0, .ack 1,
+  [.send 0 7, .send 1 8, .step 0, .cancel 1, .step 1, .step 0, .step 1, .poll 2 0, .step 2, .ack 2, .step 0, .step 1, .ack 0,
+   .ack 1,
    .release 7, .poll 2 1, .step 2, .ack 2, .poll 2 0, .step 2, .ack 2, .release 8, .poll 2 1, .step 2, .ack 2, .release 7,
    .send 0 9, .step 0, .step 0]
 
@@ -254,7 +258,8 @@ example :
     RelOK s₀ (sendEvs fanWitness) s₀ [] fanWitness ∧ s₀.flavor = .ogreArc ∧ s₀.live = [0, 1] ∧
       s.pubs = [(7, 0), (8, 0), (7, 1), (8, 1), (9, 0)] ∧ s.sent = [7, 8] ∧
       s.delivered = [(0, 1, 7), (1, 1, 7), (0, 1, 8), (1, 1, 8)] ∧ s.queues 0 = [9] ∧ s.queues 1 = [] ∧
-      s.refs 7 = 0 ∧ s.refs 8 = 1 ∧ s.refs 9 = 3 ∧ s.thr 0 = .fOgre 9 1 2 := by
+      s.refs 7 = 0 ∧ s.refs 8 = 1 ∧ s.refs 9 = 3 ∧ s.thr 0 = .fOgre 9 1 2 ∧ s.keep 0 = true ∧ s.keep 1 = false ∧
+      cancelIds fanWitness = [1] := by
   decide
 
 /-- the `arc` flavour on the same schedule (its `.send` already reads entry 0, so it is one listener ahead) -/
@@ -265,14 +270,14 @@ example :
       s.thr 0 = .fArc 9 2 3 := by
   decide
 
-/-- `c03_producer_order` is not vacuous: split `fanWitness` after the 13th action (both sends completed) -/
+/-- `c03_producer_order` is not vacuous: split `fanWitness` after the 14th action (both sends completed) -/
 example :
-    (run (setup 3 2 .arc) (fanWitness.take 13)).sent = [7, 8] ∧ sendEvs (fanWitness.drop 13) = [9] := by
+    (run (setup 3 2 .arc) (fanWitness.take 14)).sent = [7, 8] ∧ sendEvs (fanWitness.drop 14) = [9] := by
   decide
 
 /-- `c03_thread_order` is not vacuous: thread 0 sends 7, later 9 -/
 example :
-    fanWitness = ([] ++ .send 0 7 :: (fanWitness.drop 1).take 24) ++ .send 0 9 :: [.step 0, .step 0] := by
+    fanWitness = ([] ++ .send 0 7 :: (fanWitness.drop 1).take 25) ++ .send 0 9 :: [.step 0, .step 0] := by
   decide
 
 /-- `RelOK` is necessary for `c03_refs`: a release before the delivery makes the counter hit 0 while copies exist -/
